@@ -8,6 +8,10 @@ import itertools
 
 MODES = {
     'normal': "x = 1\nprint(x)\n",
+    'deep_recursion_then_raise': "def f(n):\n    if n == 0:\n        raise ValueError('deep')\n    return f(n - 1)\nf(12)\n",
+    'many_inputs_then_error': "for i in range(35):\n    input()\nprint(1 / 0)\n",
+    'open_submission_source': "open('answer.py').read()\n",
+    'open_submission_for_writing': "open('notes.txt', 'w')\n",
     'raise_BdbQuit': "import bdb\nprint('dbg')\nraise bdb.BdbQuit\n",
     'through_library': "import json\ndef enc(o):\n    return 1 / 0\njson.dumps(object(), default=enc)\n",
     'timeout': "print('started')\nwhile True:\n    pass\n",
@@ -77,7 +81,7 @@ def fresh(tracer):
     from pedal.core.submission import Submission
     from pedal.sandbox.sandbox import Sandbox
     report = Report()
-    report.contextualize(Submission(files={'answer.py': 'pass'}, main_file='answer.py', main_code='pass'))
+    report.contextualize(Submission(files={'answer.py': 'pass', 'notes.txt': 'n'}, main_file='answer.py', main_code='pass'))
     sb = Sandbox(report=report)
     if tracer != 'none':
         sb.tracer_style = tracer
@@ -136,7 +140,7 @@ def one(entry, mode, tracer, prop):
                 if fb.fields.get('exception_name') != want:
                     fails.append(('describes_class', '%s/%s/%s: feedback names %r, exception is %s' % (
                         entry, mode, tracer, fb.fields.get('exception_name'), want)))
-                lines_ = {'through_library': 3, 'raise_BdbQuit': 3, 'ValueError': 1, 'ZeroDivision': 2, 'NameError': 1, 'KeyError': 2, 'assertion': 1,
+                lines_ = {'deep_recursion_then_raise': 3, 'many_inputs_then_error': 3, 'through_library': 3, 'raise_BdbQuit': 3, 'ValueError': 1, 'ZeroDivision': 2, 'NameError': 1, 'KeyError': 2, 'assertion': 1,
                           'finally_after_raise': 2, 'reraise_after_cleanup': 2, 'raise_in_function': 2}
                 if entry == 'run' and mode in lines_:
                     line = lines_[mode]
